@@ -231,6 +231,15 @@ example : LeidenContract exLeidenKernel exRefine :=
 example : leidenFit argsortStable exLeidenKernel exRefine (-1) 6 6 (List.range 6) true false true 4
     = .ok (some (⟨[0, 0, 0, 0], some [0, 0, 0, 0], some [1, 1]⟩, 2)) := by decide
 
+-- the hypothesis `LeidenContract.within` is needed: a refinement whose clusters {0,1},{2,3} cut across the coarse
+-- clusters {0,2},{1,3} makes `membership_refined.T.dot(membership).indices` twice too long, and the next round fails
+def badKernel : Nat → List Nat → List Int × Bool :=
+  fun c labels => if c = 1 then ([0, 1, 0, 1], false) else (labels.map Int.ofNat, true)
+def badRefine : Nat → List Nat → List Int :=
+  fun c labels => if c = 1 then [0, 0, 1, 1] else labels.map Int.ofNat
+example : leidenFit argsortStable badKernel badRefine (-1) 4 4 (List.range 4) true false false 4 = .error .valueError := by
+  decide
+
 /-! ## 6. secondary outputs -/
 
 /-- ★ square input, non-negative weights: `_secondary_outputs` does not raise; every row of `probs_` is
